@@ -228,12 +228,29 @@ def run(ctx):
         skip = g.path_avoiding(hid, {hid, g.exit.id}, {g.node_of(c).id}, edge_ok=lambda a, b, lab, hid=hid: not (a == hid and lab == "done"))
         ctx.ob(5, "K3", "every failed result produces a retry job", skip is None, f, c, construct="one job per failure", detail="unconditional in the loop over failures" if skip is None else g.describe_path(skip))
     # retry branch: doubling and cut-off
-    for c in sites:
-        fs = g.facts_at(c)
-        rs_err = [a for a in fs if a[0] == "cmp" and a[1] == "isnot" and a[2].endswith(".error") and a[3] == "None"]
-        if not rs_err:
-            continue
-        rsn = rs_err[0][2][:-len(".error")]
+    # The retry branch is anchored at the branch (`… .error is not None` taken), not at an Assignment under it: one Assignment after the
+    # if/elif/else that only chooses the amounts is the same program.  Facts and definitions are those of the paths that start at the branch
+    # and stay within the iteration of the job loop.
+    branches = []
+    for n in g.nodes:
+        for t, lab in n.succ:
+            if isinstance(lab, tuple) and lab[0] == "cond":
+                for a in norm.atoms_true(lab[1]):
+                    if a[0] == "cmp" and a[1] == "isnot" and a[2].endswith(".error") and a[3] == "None" and (t, a[2][:-len(".error")]) not in branches:
+                        branches.append((t, a[2][:-len(".error")]))
+    retry_sites = []
+    for t, rsn in branches:
+        for c in sites:
+            jl = enclosing_for(c, f.node)
+            if jl is None:
+                continue
+            IN = g.facts(blocked={g.node_of(jl).id}, start=t)
+            if IN[g.node_of(c).id] is not None:
+                retry_sites.append((c, rsn, IN))
+    ctx.count_min("retry branch (`….error is not None`) leading to an Assignment in priority-pool", len(retry_sites), 1)
+    for c, rsn, IN in retry_sites:
+        fs = IN[g.node_of(c).id]
+        within = {i for i, v in IN.items() if v is not None}
         cpu, ram = sched.asg_arg(c, "cpu"), sched.asg_arg(c, "ram")
         jl = enclosing_for(c, f.node)
         pl = enclosing_for(enclosing_for(jl, f.node), f.node)
@@ -243,7 +260,7 @@ def run(ctx):
             ratio = None
             for a in fs:
                 if a[0] == "cmp" and a[1] == "<" and a[3] == "0.5":
-                    defs = [d for d in sched.reaching_defs(f, g, c, a[2]) if isinstance(d, ast.Assign)]
+                    defs = [d for d in sched.reaching_defs(f, g, c, a[2], within) if isinstance(d, ast.Assign)]
                     for d in defs:
                         if total in norm.U(d.value):
                             ratio = (a[2], d)
@@ -277,7 +294,7 @@ def run(ctx):
         for res, arg in (("cpu", cpu), ("ram", ram)):
             if arg is None or not isinstance(arg, ast.Name):
                 continue
-            ds = [x for x in sched.reaching_defs(f, g, c, arg.id) if isinstance(x, ast.Assign)]
+            ds = [x for x in sched.reaching_defs(f, g, c, arg.id, within) if isinstance(x, ast.Assign)]
             vals = {norm.U(x.value) for x in ds}
             okd = any(ratform.same(x.value, ratform.parse(f"2 * {rsn}.old_{res}")) for x in ds)
             ctx.ob(5, "K7", f"the retry asks for twice the failed container's {res.upper()}", okd, f, c, construct=f"retry request {res} = 2*old", detail=f"definitions reaching the Assignment: {sorted(vals)}")
